@@ -287,7 +287,14 @@ pub fn gen_recover(rng: &mut Rng) -> G {
         10 | 11 => {
             let ks: &[u32] = &[4, 5, 0, 3];
             let rec = if rng.chance(1, 2) { Rec::After(*rng.pick(ks)) } else { Rec::AfterAny(pick_kinds(rng, ks, 2)) };
-            let body = G::Recover(rng.below(4) as u8, Box::new(if rng.chance(1, 2) { G::One(0) } else { G::Seq(vec![0, 1]) }), rec);
+            // (one body in four has a stabilising parser inside: the shape on which finding F07r shows
+            // as non-termination)
+            let inner = match rng.below(4) {
+                0 => G::One(0),
+                1 | 2 => G::Seq(vec![0, 1]),
+                _ => G::Left(Box::new(G::One(0)), Box::new(G::Stabilize(Box::new(G::One(5))))),
+            };
+            let body = G::Recover(rng.below(4) as u8, Box::new(inner), rec);
             if rng.chance(1, 2) { G::Repeat(rng.below(4) as u8, 0, None, Box::new(body)) }
             else { G::Repeat(rng.below(4) as u8, 0, None, Box::new(G::Both(Box::new(body), Box::new(G::Maybe(Box::new(G::One(1))))))) }
         }
